@@ -3,6 +3,7 @@ mod c02;
 mod c03;
 mod c04;
 mod c05;
+mod c06;
 mod c08;
 mod c09;
 mod c10;
@@ -80,6 +81,8 @@ fn main() {
         "C15" => c15::run(&mut rng, &mut out, &tier),
         "C19" => c19::run(&mut rng, &mut out, &tier),
         "C03" => c03::run(&mut rng, &mut out, &tier),
+        "C06" => c06::run(&mut rng, &mut out, &tier, "C06"),
+        "C07" => c06::run(&mut rng, &mut out, &tier, "C07"),
         "C20" => c20::run(&mut rng, &mut out, &tier),
         "probe" => probe::run(),
         "C01" => c01::run(&mut rng, &mut out, &tier),
